@@ -45,6 +45,14 @@ CHECKS["C17"] = ("E1-enum", "exploration",
   "Bounded-exhaustive over structurally arbitrary request messages: the full product of per-field domains (each including 'absent') for one module, restricted products for two and three modules (duplicates, self/mutual/dangling references, cycles through inputs and filters) and the request-level fields; every message is round-tripped through the wire format and pushed through the real validation, graph construction, hashing, staging, resolution and planning; a panic, a 30 s hang or unbounded heap growth is a violation.",
   "In-process with recover + watchdog + heap guard instead of the designed sub-process sharding.",
   "bounded exhaustive enumeration of request messages on the real validation/graph/plan code, crash and hang oracle", "3/C17")
+CHECKS["C06"] = ("E1-enum", "exploration",
+  "Bounded-exhaustive over module graphs (n<=3 full domain; thorough n=4) and families: every single-field mutation of every module that keeps the graph valid and every identity-preserving transformation, with the real hash read from exec.NewOutputModuleGraph for every output module; oracle = changed exactly for the mutated module and its descendants (independent DFS), unchanged under renames, alias prefix, unrelated additions and binary re-indexing. Two known findings (input swap / retarget inside the ancestor set) are reported as KNOWN-FINDING.",
+  "Alias import is applied as the reader's prefix rule on the module list (the real Reader is not driven); unlisted fields carry no expectation.",
+  "bounded exhaustive enumeration of graphs x mutations on the real hashing code", "3/C06")
+CHECKS["C15"] = ("E1-enum", "exploration",
+  "Bounded-exhaustive differential check of the two filter evaluators: every expression string with <=3 (thorough 4) leaves over 3 keys with and/or/juxtaposition/parentheses, quoted keys and a key with a space, x every assignment of key subsets to the 3 blocks of a segment; bitmap evaluation vs per-block keys evaluation, BlockIndex.Skip vs SkipFromKeys, index.File save/load, repeated evaluation and non-mutation of the shared index.",
+  "Whole-system half (index absent / being built / present) is exercised by the runs of the index program in C01/C07 once those exist.",
+  "bounded exhaustive enumeration of expressions x key assignments, differential between the two real evaluators", "3/C15")
 PENDING = {}
 def main():
     checks = []
